@@ -41,6 +41,12 @@ pub struct Family {
 ///        `judged_only`: they must tell apart what the exact routes tell apart
 ///        (they do, and would after a repair), but what they tell apart in
 ///        excess is not held against the others.
+/// `THIRDS`, `NINTHS`  K + r/3 and K + r/9 on top of whatever integral part an
+///        ORDINARY quotient has (1 / 0.03 = 33.33…): 10^x leaves remainder 1
+///        modulo 3 and 9, so N·10^x / d has the fractional part (N mod d)/d
+///        for any operand scales.  Unlike everywhere else the divisor has MORE
+///        fractional digits than the dividend here and both coefficients are
+///        small; no ties, and K never ends in 0 or 5.
 /// The classes after NONNEG exist because "this is as good as zero" shortcuts are
     /// taken on exactly these inputs and are wrong for the directed modes.
     pub class: usize,
@@ -61,7 +67,9 @@ pub const TINY: usize = 3;
 pub const DIVISORS: [i128; 11] = [2, 3, 4, 5, 6, 7, 8, 9, 16, 25, 125];
 pub const TAIL: usize = 4;
 pub const GRE: usize = 5;
-pub const N_FIXED: usize = 6;
+pub const THIRDS: usize = 6;
+pub const NINTHS: usize = 7;
+pub const N_FIXED: usize = 8;
 pub const N_CLASSES: usize = N_FIXED + DIVISORS.len();
 
 /// w · 10^-(n+1) rounded to n digits
@@ -260,6 +268,45 @@ pub fn families() -> Vec<Family> {
         v.push(Family { name: "quantize/pos".into(), ops: pos.iter().map(|w| Op::Quantize { a: (*w, 0), q: (10, 0), form: 0 }).collect(), class: NONNEG, judged_only: false });
     }
     tail_families(&mut v);
+    shape_families(&mut v);
+    for (class, dv, ns) in [(THIRDS, 3i128, vec![1i128, -1, 2, -2]), (NINTHS, 9, vec![1, -1, 2, -2, 4, -4, 5, -5, 7, -7, 8, -8])] {
+        let mut push = |name: String, f: &dyn Fn(i128) -> Op| {
+            v.push(Family { name, ops: ns.iter().map(|n| f(*n)).collect(), class, judged_only: false });
+        };
+        // (dividend scale, divisor scale, dividend multiplier 10^m)
+        for (sa, sb, m) in [(0u8, 0u8, 0u32), (0, 2, 0), (1, 4, 0), (0, 7, 1), (3, 3, 2), (5, 2, 0), (18, 0, 0), (2, 18, 0), (0, 1, 3)] {
+            let mm = 10i128.pow(m);
+            let tag = format!("by{}/sa{}sb{}m{}", dv, sa, sb, m);
+            for f in 0..4u8 {
+                push(format!("div/{}/form{}", tag, f), &|n| Op::Div { a: (n * mm, sa), b: (dv, sb), form: f });
+                push(format!("checked_div/{}/form{}", tag, f), &|n| Op::CheckedDiv { a: (n * mm, sa), b: (dv, sb), form: f });
+                push(format!("div/{}/negdiv/form{}", tag, f), &|n| Op::Div { a: (-n * mm, sa), b: (-dv, sb), form: f });
+                push(format!("checked_div/{}/negdiv/form{}", tag, f), &|n| Op::CheckedDiv { a: (-n * mm, sa), b: (-dv, sb), form: f });
+            }
+            // div_rounded: not through the divisor-scaled branch (sa <= n + sb)
+            for n in [0u8, 2, 5, 18] {
+                if sa <= n + sb && (n as i32 + sb as i32 - sa as i32) <= 30 {
+                    push(format!("div_rounded/{}/n={}", tag, n), &|x| Op::DivRounded { a: (x * mm, sa), b: (dv, sb), n, form: 0 });
+                    push(format!("div_rounded/{}/negdiv/n={}", tag, n), &|x| Op::DivRounded { a: (-x * mm, sa), b: (-dv, sb), n, form: 1 });
+                }
+            }
+            if sb == 0 {
+                for ty in INT_TYS {
+                    push(format!("div_di/{}/{}", tag, ty.name()), &|n| Op::DivDI { a: (n * mm, sa), i: Int { ty, v: dv }, form: 0 });
+                    push(format!("checked_div_di/{}/{}", tag, ty.name()), &|n| Op::CheckedDivDI { a: (n * mm, sa), i: Int { ty, v: dv } });
+                    push(format!("div_rounded_di/{}/{}", tag, ty.name()), &|n| Op::DivRoundedDI { a: (n * mm, sa), i: Int { ty, v: dv }, n: sa.max(1), form: 0 });
+                }
+            }
+            if sa == 0 {
+                for ty in INT_TYS {
+                    if ty.signed() {
+                        push(format!("div_id/{}/{}", tag, ty.name()), &|n| Op::DivID { i: Int { ty, v: n * mm.min(10) }, b: (dv, sb), form: 0 });
+                        push(format!("checked_div_id/{}/{}", tag, ty.name()), &|n| Op::CheckedDivID { i: Int { ty, v: n * mm.min(10) }, b: (dv, sb) });
+                    }
+                }
+            }
+        }
+    }
     {
         let cs: Vec<i128> = W.iter().map(|w| 7 * w + w.signum()).collect();
         let mut push = |name: String, judged_only: bool, f: &dyn Fn(i128) -> Op| {
@@ -288,6 +335,154 @@ pub fn families() -> Vec<Family> {
         divisor_families(&mut v, N_FIXED + di, *dv);
     }
     v
+}
+
+/// Operand SHAPES drawn from a fixed stream (part of the check's definition,
+/// not of VERIF_SEED): the same twelve values w/10, optionally on top of a
+/// huge multiple of ten, through every kind of route with random numbers of
+/// fractional digits on both operands, random target precision, a random
+/// common factor in dividend and divisor (3, 7, 11, 13 … - the divisor need
+/// not be a power of ten), both operands negated, random integer types and
+/// reference forms, factor pairs 2·5, 4·25, 8·125 for products, random
+/// trailing zeros, every Display flag variant.  All in class STD.  What the
+/// hand-written families pin down one at a time (the dividend has fewer digits
+/// than the divisor; the coefficient exceeds 64 bits AND n equals its scale;
+/// …) this covers by the hundred.
+pub const N_SHAPES: usize = 640;
+
+fn shape_families(v: &mut Vec<Family>) {
+    use crate::prng::Rng;
+    let mut rng = Rng::from_seed(0x5EED_C19_5A9E5);
+    let p10 = |k: i64| -> Option<i128> { if (0..=37).contains(&k) { Some(10i128.pow(k as u32)) } else { None } };
+    let mut made = 0usize;
+    let mut attempts = 0usize;
+    while made < N_SHAPES && attempts < 40 * N_SHAPES {
+        attempts += 1;
+        let route = made % 16;
+        let k_off: i128 = if rng.pct(50) { 0 } else if rng.pct(50) { 10i128.pow(rng.range(19, 24) as u32) } else { 10i128.pow(rng.range(5, 18) as u32) };
+        // tenths: T(w) = ±(10·K + |w|)
+        let t_of = |w: i128| -> i128 { if w < 0 { -(10 * k_off + w.abs()) } else { 10 * k_off + w } };
+        let tmax = 10 * k_off + 103;
+        let big = k_off != 0;
+        let sigma: i128 = if rng.pct(35) { -1 } else { 1 };
+        let beta: i128 = *rng.pick(&[1i128, 1, 2, 3, 4, 5, 7, 8, 9, 11, 13, 25, 125]);
+        let sa = rng.range(0, 18);
+        // equal scales are a special case somebody will special-case
+        let sb = if rng.pct(20) { sa } else { rng.range(0, 18) };
+        let n_eq_sa = rng.pct(30);
+        let form4 = rng.below(4) as u8;
+        let form5 = rng.below(5) as u8;
+        let tag = |r: &str| format!("shape/{}/{}{}", made, r, if big { "/big" } else { "" });
+        let lim = 10i128.pow(36);
+        let each = |f: &dyn Fn(i128) -> Op| -> Vec<Op> { W.iter().map(|w| f(*w)).collect() };
+        let int_ty = |rng: &mut Rng, lo: i128, hi: i128, signed_only: bool| -> Option<IntTy> {
+            let c: Vec<IntTy> = INT_TYS.iter().copied().filter(|t| t.fits(lo) && t.fits(hi) && (!signed_only || t.signed())).collect();
+            if c.is_empty() { None } else { Some(*rng.pick(&c)) }
+        };
+        let fam_opt: Option<(String, Vec<Op>)> = match route {
+            // ---- division routes: A/B = T / 10^t, t = n + sb - sa + 1
+            0..=8 => {
+                let (sa, sb) = match route { 3 | 4 | 5 => (sa, 0), 6 | 7 => (0, sb), 8 => (0, 0), _ => (sa, sb) };
+                let n: i64 = match route { 0 | 1 | 3 | 4 | 6 => 18, 8 => rng.range(0, 3), _ => if n_eq_sa { sa } else { rng.range(0, 18) } };
+                let t = n + sb - sa + 1;
+                let (am, b) = if t >= 0 { (Some(beta), p10(t).and_then(|p| beta.checked_mul(p))) } else { (p10(-t).and_then(|p| beta.checked_mul(p)), Some(beta)) };
+                match (am, b) {
+                    (Some(am), Some(b)) if tmax.checked_mul(am).map_or(false, |x| x < lim) && b < lim => {
+                        let a_of = move |w: i128| sigma * t_of(w) * am;
+                        let bb = sigma * b;
+                        let (amin, amax) = (-(tmax * am), tmax * am);
+                        let (sa, sb, n) = (sa as u8, sb as u8, n as u8);
+                        match route {
+                            0 => Some((tag("div"), each(&|w| Op::Div { a: (a_of(w), sa), b: (bb, sb), form: form5 }))),
+                            1 => Some((tag("checked_div"), each(&|w| Op::CheckedDiv { a: (a_of(w), sa), b: (bb, sb), form: form4 }))),
+                            2 => Some((tag("div_rounded"), each(&|w| Op::DivRounded { a: (a_of(w), sa), b: (bb, sb), n, form: form4 }))),
+                            3 | 4 | 5 => int_ty(&mut rng, bb, bb, false).map(|ty| {
+                                let i = Int { ty, v: bb };
+                                match route {
+                                    3 => (tag("div_di"), each(&|w| Op::DivDI { a: (a_of(w), sa), i, form: form5 })),
+                                    4 => (tag("checked_div_di"), each(&|w| Op::CheckedDivDI { a: (a_of(w), sa), i })),
+                                    _ => (tag("div_rounded_di"), each(&|w| Op::DivRoundedDI { a: (a_of(w), sa), i, n, form: form4 })),
+                                }
+                            }),
+                            6 | 7 => int_ty(&mut rng, amin, amax, true).map(|ty| match route {
+                                6 => (tag("div_id"), each(&|w| Op::DivID { i: Int { ty, v: a_of(w) }, b: (bb, sb), form: form4 })),
+                                _ => (tag("div_rounded_id"), each(&|w| Op::DivRoundedID { i: Int { ty, v: a_of(w) }, b: (bb, sb), n, form: form4 })),
+                            }),
+                            _ => int_ty(&mut rng, amin.min(-b), amax.max(b), true).map(|ty| {
+                                (tag("div_rounded_ii"), each(&|w| Op::DivRoundedII { i: Int { ty, v: a_of(w) }, j: bb, n, form: form4 }))
+                            }),
+                        }
+                    }
+                    _ => None,
+                }
+            }
+            // ---- quantize: round(a/q) * q with a/q = T/10 and q > 0
+            9 | 10 => {
+                let sb = if route == 10 { 0 } else { sb };
+                let t = sb - sa + 1;
+                let (am, b) = if t >= 0 { (Some(beta), p10(t).and_then(|p| beta.checked_mul(p))) } else { (p10(-t).and_then(|p| beta.checked_mul(p)), Some(beta)) };
+                match (am, b) {
+                    (Some(am), Some(b)) if tmax.checked_mul(am).map_or(false, |x| x < lim) && b < lim && tmax.checked_mul(b).map_or(false, |x| x < lim) => {
+                        let a_of = move |w: i128| t_of(w) * am;
+                        let (sa, sb) = (sa as u8, sb as u8);
+                        if route == 9 {
+                            Some((tag("quantize"), each(&|w| Op::Quantize { a: (a_of(w), sa), q: (b, sb), form: form4 })))
+                        } else {
+                            int_ty(&mut rng, b, b, false).map(|ty| (tag("quantize_di"), each(&|w| Op::QuantizeDI { a: (a_of(w), sa), i: Int { ty, v: b } })))
+                        }
+                    }
+                    _ => None,
+                }
+            }
+            // ---- products: A·B = T · 10^u, sa + sb = u + n + 1
+            11 | 12 => {
+                let (al, be, u) = *rng.pick(&[(1i128, 1i128, 0i64), (1, 10, 1), (2, 5, 1), (5, 2, 1), (4, 25, 2), (25, 4, 2), (8, 125, 3), (125, 8, 3), (1, 1000, 3), (16, 625, 4)]);
+                let n: i64 = if route == 11 { 18 } else { rng.range(0, 17) };
+                let total = u + n + 1;
+                let sa = rng.range((total - 18).max(0), total.min(18));
+                let sb = total - sa;
+                if total > 36 || sb > 18 || (route == 11 && total <= 18) || !tmax.checked_mul(al).map_or(false, |x| x < lim) {
+                    None
+                } else {
+                    let a_of = move |w: i128| sigma * t_of(w) * al;
+                    let bb = sigma * be;
+                    let (sa, sb, n) = (sa as u8, sb as u8, n as u8);
+                    let swap = rng.pct(50);
+                    if route == 11 {
+                        Some((tag("mul"), each(&|w| if swap { Op::Mul { a: (bb, sb), b: (a_of(w), sa), form: form5 } } else { Op::Mul { a: (a_of(w), sa), b: (bb, sb), form: form5 } })))
+                    } else {
+                        Some((tag("mul_rounded"), each(&|w| if swap { Op::MulRounded { a: (bb, sb), b: (a_of(w), sa), n, form: form4 } } else { Op::MulRounded { a: (a_of(w), sa), b: (bb, sb), n, form: form4 } })))
+                    }
+                }
+            }
+            // ---- round, checked_round, Display: T·10^z at scale n + 1 + z
+            _ => {
+                let z = rng.range(0, 6);
+                let n: i64 = if route == 15 { rng.range(0, 17 - z) } else { rng.range(-6, 17 - z) };
+                let s = n + 1 + z;
+                match p10(z) {
+                    Some(pz) if (0..=18).contains(&s) && tmax.checked_mul(pz).map_or(false, |x| x < lim) => {
+                        let a_of = move |w: i128| t_of(w) * pz;
+                        let s = s as u8;
+                        match route {
+                            13 => Some((tag("round"), each(&|w| Op::Round { a: (a_of(w), s), n: n as i8 }))),
+                            14 => Some((tag("checked_round"), each(&|w| Op::CheckedRound { a: (a_of(w), s), n: n as i8 }))),
+                            _ => {
+                                let var = rng.below(N_FMT_VARIANTS as u64) as u8;
+                                let wd = rng.range(0, 14) as u8;
+                                Some((tag("display"), each(&|w| Op::Fmt { a: (a_of(w), s), var, w: wd, p: n as u8, pauses: vec![], err_at: 0, reent: false })))
+                            }
+                        }
+                    }
+                    _ => None,
+                }
+            }
+        };
+        if let Some((name, ops)) = fam_opt {
+            v.push(Family { name, ops, class: STD, judged_only: false });
+            made += 1;
+        }
+    }
 }
 
 /// The sixteen abstract TAIL witnesses: (kept part q, half?, sign of ε, sign).
@@ -448,7 +643,10 @@ pub struct L2Report {
 
 fn exempt(class: usize, a: usize, b: usize) -> bool {
     // Ceiling(1)≡Up(7), Down(2)≡Floor(3) on non-negative results
-    class == NONNEG && matches!((a, b), (1, 7) | (2, 3))
+    (class == NONNEG && matches!((a, b), (1, 7) | (2, 3)))
+        // what Round05Up does depends on the last kept digit, which differs
+        // from route to route in these two classes
+        || ((class == THIRDS || class == NINTHS) && (a == 0 || b == 0))
 }
 
 /// Runs on the CALLING thread — call it on a fresh one.
@@ -698,7 +896,15 @@ fn run_on_this_thread(only: Option<&str>) -> L2Report {
         if members.len() < 3 {
             continue;
         }
-        let pats: Vec<Vec<u8>> = members.iter().map(|i| pattern(&all_rows[*i])).collect();
+        let mut pats: Vec<Vec<u8>> = members.iter().map(|i| pattern(&all_rows[*i])).collect();
+        if class == THIRDS || class == NINTHS {
+            // Round05Up (mode 0) is not comparable across these routes
+            for p in pats.iter_mut() {
+                for j in (0..p.len()).step_by(8) {
+                    p[j] = 9;
+                }
+            }
+        }
         let mut best: (usize, &Vec<u8>) = (0, &pats[0]);
         for p in &pats {
             let n = pats.iter().filter(|q| *q == p).count();
